@@ -1,0 +1,201 @@
+//go:build verif
+// +build verif
+
+package wasp
+
+// Contracts for the deductive verifier in /verif (comment-only file, build tag `verif`).
+
+// ---- idpool.go (C06) ----------------------------------------------------------------------
+// Representation: sorted, pairwise disjoint half-open intervals (from, to] of FREE identifiers.
+
+//@ pred pool_wf(m *simpleMidPool) := m != nil && 0 <= m.min && m.min < m.max && (!m.started ==> len(m.intervals) == 0)
+//@     && (forall i int :: {m.intervals[i]} 0 <= i && i < len(m.intervals) ==>
+//@           m.min - 1 <= m.intervals[i].from && m.intervals[i].from < m.intervals[i].to && m.intervals[i].to <= m.max)
+//@     && (forall i int, j int :: {m.intervals[i], m.intervals[j]} 0 <= i && i < j && j < len(m.intervals) ==>
+//@           m.intervals[i].to <= m.intervals[j].from)
+//@ pred pool_fresh(m *simpleMidPool) := !m.started
+//@ pred pool_free(m *simpleMidPool, x int32) := m.min <= x && x <= m.max
+//@     && (pool_fresh(m)
+//@         || (exists i int :: {m.intervals[i]} 0 <= i && i < len(m.intervals) && m.intervals[i].from < x && x <= m.intervals[i].to))
+
+//@ func newMIDPool(min int32, max int32) (p midPool)
+//@   requires 0 <= min && min < max
+//@   ensures typeis(p, *simpleMidPool) && pool_wf(unbox(p, *simpleMidPool))
+//@   ensures forall x int32 :: min <= x && x <= max ==> pool_free(unbox(p, *simpleMidPool), x)
+
+//@ func (*simpleMidPool).Get() (r int32)
+//@   requires pool_wf(m)
+//@   ensures pool_wf(m)
+//@   ensures r == -1 || (m.min <= r && r <= m.max)
+//@   ensures r == -1 <==> !(exists x int32 :: old(pool_free(m, x)))
+//@   ensures r == -1 ==> (forall x int32 :: pool_free(m, x) <==> old(pool_free(m, x)))
+//@   ensures r != -1 ==> old(pool_free(m, r))
+//@   ensures r != -1 ==> (forall x int32 :: pool_free(m, x) <==> (old(pool_free(m, x)) && x != r))
+//@   modifies m.intervals, m.started, elems(m.intervals)
+
+//@ func (*simpleMidPool).Put(mid int32)
+//@   requires pool_wf(m)
+//@   ensures pool_wf(m)
+//@   ensures forall x int32 :: pool_free(m, x) <==> (old(pool_free(m, x)) || (x == mid && m.min <= mid && mid <= m.max))
+//@   modifies m.intervals, m.started, elems(m.intervals)
+
+// ---- publish.go (C05, C14) -----------------------------------------------------------------
+// Boundary of the pipeline: the message log and the inter-node transport. Their effects on the ghost
+// counters are the trusted part; everything between them is proved.
+
+//@ trusted func (messageLog).Append(l messageLog, b *packet.Publish) (err error)
+//@   modifies #appends, #appendFails, #lastAppended
+//@   ensures #appends == old(#appends) + 1 && #lastAppended == b
+//@   ensures #appendFails == old(#appendFails) + (if err != nil then 1 else 0)
+//@ trusted func (publishDistributorTransport).Call(t publishDistributorTransport, id uint64, f func(*grpc.ClientConn) error) (err error)
+//@   modifies #calls, #callFails
+//@   ensures forall p uint64 :: #calls[p] == (if p == id then old(#calls)[p] + 1 else old(#calls)[p])
+//@   ensures #callFails == old(#callFails) + (if err != nil then 1 else 0)
+
+//@ pred is_dest(storer *PublishDistributor, publish *packet.Publish, p uint64) :=
+//@     exists i int :: {matching(storer.State, string(publish.Topic))[i]} 0 <= i && i < len(matching(storer.State, string(publish.Topic)))
+//@        && matching(storer.State, string(publish.Topic))[i].Peer == p
+
+// C14: exactly one log append iff this node hosts a matching subscription; exactly one remote call per other
+// hosting node and none for any other node; C05: a nil result means that no destination write failed.
+//@ func (*PublishDistributor).Distribute(ctx context.Context, publish *packet.Publish) (err error)
+//@   requires storer != nil && publish != nil && storer.State != nil && storer.Storage != nil && storer.Logger != nil
+//@   requires storer.Transport != nil
+//@   ensures #appends == old(#appends) + (if is_dest(storer, publish, storer.ID) then 1 else 0)
+//@   ensures #appends != old(#appends) ==> #lastAppended == publish
+//@   ensures forall p uint64 :: #calls[p] == old(#calls)[p] + (if p != storer.ID && is_dest(storer, publish, p) then 1 else 0)
+//@   ensures err == nil <==> (#appendFails == old(#appendFails) && #callFails == old(#callFails))
+//@   ensures #appendFails >= old(#appendFails) && #callFails >= old(#callFails)
+
+//@   records #lastDistErr := err
+//@   records #lastDistPublish := publish
+
+//@ loop (*PublishDistributor).Distribute#1
+//@   invariant -1 <= rangeindex && rangeindex < len(subscriptions)
+//@   invariant destinations != nil
+//@   invariant forall p uint64 :: p in destinations <==> (exists i int :: {subscriptions[i]} 0 <= i && i <= rangeindex && subscriptions[i].Peer == p)
+//@   invariant #appends == old(#appends) && #calls == old(#calls) && #appendFails == old(#appendFails) && #callFails == old(#callFails)
+//@ loop (*PublishDistributor).Distribute#2
+//@   invariant #appends == old(#appends) + (if seen(storer.ID) then 1 else 0)
+//@   invariant #appends != old(#appends) ==> #lastAppended == publish
+//@   invariant forall p uint64 :: #calls[p] == old(#calls)[p] + (if p != storer.ID && seen(p) then 1 else 0)
+//@   invariant forall p uint64 :: seen(p) ==> p in destinations
+//@   invariant !failed <==> (#appendFails == old(#appendFails) && #callFails == old(#callFails))
+//@   invariant #appendFails >= old(#appendFails) && #callFails >= old(#callFails)
+
+// ---- packets.go: publish worker (C02, C05, C07) -----------------------------------------------
+
+//@ trusted func (tapsDispatcher).Dispatch(t tapsDispatcher, ctx context.Context, sender string, p *packet.Publish) (err error)
+//@   modifies nothing
+
+// C05: the acknowledgement callback of a publish request runs only after Distribute returned nil for that publish.
+//@ assume-call publishRequestInput.cb(publish *packet.Publish)
+//@   requires #lastDistErr == nil && #lastDistPublish == publish
+//@   modifies #acksSent
+
+// C07: the live copy handed to distribution is never flagged as retained ...
+//@ callsite (*packetProcessor).Run$1 -> (*PublishDistributor).Distribute(ctx context.Context, publish *packet.Publish)
+//@   requires publish.Header != nil && !publish.Header.Retain
+// ... while the copy put into the retained store still is, and an empty payload clears instead of storing
+//@ callsite (*packetProcessor).Run$1 -> (distributed.TopicsState).Set(t distributed.TopicsState, message *packet.Publish)
+//@   requires message != nil && message.Header != nil && message.Header.Retain && len(message.Payload) > 0
+//@ callsite (*packetProcessor).Run$1 -> (distributed.TopicsState).Delete(t distributed.TopicsState, topic []byte)
+//@   requires len(publish.Payload) == 0 && topic == publish.Topic
+
+//@ func (*packetProcessor).Run$1(ctx context.Context)
+//@   requires processor != nil && processor.tapsDispatcher != nil && processor.state != nil && processor.distributor != nil && wg != nil
+//@   requires processor.distributor.State != nil && processor.distributor.Storage != nil && processor.distributor.Logger != nil && processor.distributor.Transport != nil
+
+// A-LOGGER: every context handed to broker code carries the logger (cmd/wasp stores it before anything runs).
+//@ trusted func L(ctx context.Context) (l *zap.Logger)
+//@   ensures l != nil
+//@   pure
+
+// Every publish request handed to a worker carries a packet with a header (established by publishHandler's callers).
+//@ chan publishRequestInput(v)
+//@   invariant v.publish != nil && v.publish.Header != nil
+
+// ---- packets.go: Process (C05, C07, C11, C12, C17) ---------------------------------------------
+
+//@ func (*packetProcessor).publishHandler(ctx context.Context, sender string, publish *packet.Publish, cb func(publish *packet.Publish)) (err error)
+//@   requires processor != nil && publish != nil && publish.Header != nil
+//@   records #handed := old(#handed) + (if err == nil then 1 else 0)
+//@   records #lastHanded := (if err == nil then publish else old(#lastHanded))
+//@   records #lastHandedHasCb := (if err == nil then cb != nil else old(#lastHandedHasCb))
+
+//@ pred is_publish(pkt packet.Packet) := typeis(pkt, *packet.Publish)
+//@ pred wf_processor(processor *packetProcessor) := processor != nil && processor.state != nil && processor.inflights != nil
+//@     && processor.encoder != nil && processor.writer != nil && processor.local != nil
+
+//@ func (*packetProcessor).Process(ctx context.Context, session *sessions.Session, c io.Writer, pkt packet.Packet) (err error)
+//@   requires wf_processor(processor) && session != nil && topics_nodup(session)
+// the filter set of the session stays duplicate-free (acknowledgement packets run arbitrary callbacks of the
+// in-flight table, about which nothing is known here)
+//@   ensures !(typeis(pkt, *packet.PubAck) || typeis(pkt, *packet.PubRec) || typeis(pkt, *packet.PubRel) || typeis(pkt, *packet.PubComp)) ==> topics_nodup(session)
+//@   requires typeis(pkt, *packet.Publish) ==> unbox(pkt, *packet.Publish) != nil && unbox(pkt, *packet.Publish).Header != nil
+//@   requires typeis(pkt, *packet.Subscribe) ==> unbox(pkt, *packet.Subscribe) != nil && c != nil
+//@              && len(unbox(pkt, *packet.Subscribe).Qos) == len(unbox(pkt, *packet.Subscribe).Topic)
+//@   requires typeis(pkt, *packet.Unsubscribe) ==> unbox(pkt, *packet.Unsubscribe) != nil && c != nil
+//@   requires typeis(pkt, *packet.PingReq) ==> unbox(pkt, *packet.PingReq) != nil
+//@   requires typeis(pkt, *packet.PubAck) ==> unbox(pkt, *packet.PubAck) != nil
+//@   requires typeis(pkt, *packet.PubRec) ==> unbox(pkt, *packet.PubRec) != nil
+//@   requires typeis(pkt, *packet.PubRel) ==> unbox(pkt, *packet.PubRel) != nil
+//@   requires typeis(pkt, *packet.PubComp) ==> unbox(pkt, *packet.PubComp) != nil
+// C05: Process itself never writes PUBACK or PUBCOMP for an inbound publish (that is the worker's callback) ...
+//@   ensures typeis(pkt, *packet.Publish) ==> #wire[4] == old(#wire)[4] && #wire[7] == old(#wire)[7]
+// ... a will or a QoS 0/1 publish is handed to the pipeline exactly once when Process succeeds, never more than once ...
+//@   ensures typeis(pkt, *packet.Publish) && (c == nil || old(unbox(pkt, *packet.Publish).Header.Qos) == 0 || old(unbox(pkt, *packet.Publish).Header.Qos) == 1)
+//@             ==> #handed == old(#handed) + (if err == nil then 1 else 0) && (err == nil ==> #lastHanded == unbox(pkt, *packet.Publish))
+// ... and a QoS 2 publish from a client is NOT handed over by Process: it is registered awaiting PUBREL and answered with PUBREC
+//@   ensures typeis(pkt, *packet.Publish) && c != nil && old(unbox(pkt, *packet.Publish).Header.Qos) == 2 ==> #handed == old(#handed)
+//@   ensures typeis(pkt, *packet.Publish) && c != nil && old(unbox(pkt, *packet.Publish).Header.Qos) == 2 && err == nil
+//@             ==> #inserts == old(#inserts) + 1 && typeis(#lastInsertPkt, *packet.PubRec) && #lastInsertPrefix == session.id && #wire[5] == old(#wire)[5] + 1
+// acknowledgement packets only consult the in-flight table; at most one forward can result (the PUBREL callback)
+//@   ensures typeis(pkt, *packet.PubAck) || typeis(pkt, *packet.PubRec) || typeis(pkt, *packet.PubRel) || typeis(pkt, *packet.PubComp)
+//@             ==> #ackCalls == old(#ackCalls) + 1 && #handed <= old(#handed) + 1 && err == nil
+// C17: the topic of an inbound publish (a will included) is moved into the session's mount point before anything else sees it
+//@   ensures [C17] typeis(pkt, *packet.Publish) ==> prefixed(session.mountPoint, old(unbox(pkt, *packet.Publish).Topic), unbox(pkt, *packet.Publish).Topic)
+// C11: Process reports an error (which ends the session) only for the causes the protocol allows
+//@   ensures [C11] typeis(pkt, *packet.Connect) ==> err != nil
+//@   ensures [C11] typeis(pkt, *packet.Disconnect) ==> err != nil
+
+//@ func (Writer).Send(w Writer, ctx context.Context, recipients []string, qosses []int32, p *packet.Publish)
+//@   modifies #writerSends
+//@   ensures #writerSends == old(#writerSends) + 1
+
+//@ loop (*packetProcessor).Process#1
+//@   invariant -1 <= rangeindex && rangeindex < len(p.Topic) && len(topics) == len(p.Topic)
+//@   invariant fresh(topics) && topics_nodup(session)
+//@ loop (*packetProcessor).Process#2
+//@   invariant -1 <= rangeindex && rangeindex < len(topics) && len(topics) == len(p.Topic) && topics_nodup(session)
+//@ loop (*packetProcessor).Process#3
+//@   invariant -1 <= rangeindex && rangeindex < len(topics) && len(topics) == len(p.Topic) && topics_nodup(session)
+//@ loop (*packetProcessor).Process#4
+//@   invariant -1 <= rangeindex && rangeindex < len(messages) && topics_nodup(session)
+//@ loop (*packetProcessor).Process#5
+//@   invariant -1 <= rangeindex && rangeindex < len(p.Topic) && len(topics) == len(p.Topic)
+//@   invariant fresh(topics) && topics_nodup(session)
+//@ loop (*packetProcessor).Process#6
+//@   invariant -1 <= rangeindex && rangeindex < len(topics) && len(topics) == len(p.Topic) && topics_nodup(session)
+
+// closures of Process ------------------------------------------------------------------------------
+// QoS 0/1 acknowledgement callback: one PUBACK with the publish's identifier for QoS 1, nothing for QoS 0
+//@ func (*packetProcessor).Process$1(publish *packet.Publish)
+//@   requires processor != nil && processor.encoder != nil && publish != nil && publish.Header != nil && p != nil
+//@   ensures forall t int :: #wire[t] == old(#wire)[t] + (if t == 4 && publish.Header.Qos == 1 then 1 else 0)
+//@   ensures publish.Header.Qos == 1 ==> #lastWireTo == c && asptr(#lastWirePkt, *packet.PubAck).MessageId == p.MessageId
+//@   ensures #handed == old(#handed)
+
+// PUBREL callback of a QoS 2 publish: forwards the stored publish exactly when the handshake completed (not on expiry)
+//@ func (*packetProcessor).Process$2(expired bool, stored packet.Packet, received packet.Packet)
+//@   requires processor != nil && processor.encoder != nil && session != nil && p != nil && p.Header != nil
+//@   requires !expired ==> typeis(received, *packet.PubRel) && unbox(received, *packet.PubRel) != nil
+//@   ensures expired ==> #handed == old(#handed) && #wire == old(#wire)
+//@   ensures !expired ==> #handed <= old(#handed) + 1 && (#handed == old(#handed) + 1 ==> #lastHanded == p && #lastHandedHasCb)
+//@   ensures #wire == old(#wire)
+
+// PUBCOMP writer, run by the worker after the forwarded publish has been stored
+//@ func (*packetProcessor).Process$2$1(publish *packet.Publish)
+//@   requires processor != nil && processor.encoder != nil && typeis(received, *packet.PubRel) && unbox(received, *packet.PubRel) != nil
+//@   ensures wrote(7) && #lastWireTo == c
+//@   ensures #handed == old(#handed)
